@@ -19,7 +19,7 @@ func init() {
 	register(&Prop{
 		ID: "C08",
 		Rule: "valid PBF files (as for C01, groups of up to 12 elements so that accept/reject runs of every shape occur) scanned under all 8 skip-flag combinations and deterministic predicates per element type (accept-all, reject-all, alternating by id, by tags, by version, by visibility), decoder counts 1..8; the filtered scan is compared with the model, with the filter of the implementation's own unfiltered scan, and every returned object is snapshotted when returned and compared at the end of the scan; " +
-			"every fourth file with primitive groups holding a second and third element type; 8% of elements with 9..14 tags; negative and very large ids; " +
+			"every fourth file with primitive groups holding a second and third element type (ways and relations taking turns in half of them); 8% of elements with 9..14 tags; negative and very large ids; " +
 			"non-trivial = the unfiltered file has at least one element; distinct = distinct op line",
 		Gen:  c08Gen,
 		Exec: c08Exec,
